@@ -1005,7 +1005,11 @@ func (s *Sim) checkRevisions(v *recView) {
 		return
 	}
 	if t, ok := RevTemplate(upd); !ok || t != v.tmpl {
-		s.violate("C08", "C08.update-revision-mismatch", "content", fmt.Sprintf("updateRevision %s does not record the set's current template", upd.Name))
+		disc := "content"
+		if ok && floatRounded(t) == floatRounded(v.tmpl) {
+			disc = "int-above-2^53-rounded"
+		}
+		s.violate("C08", "C08.update-revision-mismatch", disc, fmt.Sprintf("updateRevision %s does not record the set's current template", upd.Name))
 	} else if applied, err := statefulset.ApplyRevision(set, upd); err != nil || templateContent(&applied.Spec.Template) != v.tmpl {
 		s.violate("C08", "C08.update-revision-mismatch", "apply", fmt.Sprintf("applying updateRevision %s to the set does not reproduce its template (err=%v)", upd.Name, err))
 	}
